@@ -87,6 +87,8 @@ BBox(cs) == IF Len(cs) = 0 THEN <<>>
 \* an open curve has its two end points, a closed one none, multi-curves follow the mod-2 rule, areas have curves.
 IsEmptyG(g) == Len(Coords(g)) = 0
 Sq(x, y, s) == << <<x, y>>, <<x + s, y>>, <<x + s, y + s>>, <<x, y + s>>, <<x, y>> >>
+ZigSpike(n) == [i \in 1 .. n |-> << IF i > n - 2 THEN 2 * (n - 2) - i ELSE i,
+                                   IF i = n - 1 THEN 9 ELSE IF i = n - 2 THEN -4 ELSE i % 2 >>]
 Pool == <<
     Pt(<<1, 2>>), MPt(<< <<0, 0>>, <<2, 1>>, <<0, 0>> >>), MPt(<<>>),
     Ln(<<0, 3>>, <<2, 1>>), LS(<< <<0, 0>>, <<3, 0>>, <<3, 2>> >>), LS(<<>>), LS(<< <<5, 5>> >>),
@@ -101,13 +103,17 @@ Pool == <<
     \* long members (size-gated code paths)
     LS([i \in 1 .. 300 |-> <<i \div 2, (i - 1) \div 2>>]),
     MPt([i \in 1 .. 300 |-> <<(i * 7) % 13, (i * 11) % 17>>]),
-    MPoly([i \in 1 .. 150 |-> [ext |-> Sq(3 * i, i % 5, 2), holes |-> IF i % 3 = 0 THEN << Sq(3 * i + 1, (i % 5) + 1, 1) >> ELSE <<>>]])
+    MPoly([i \in 1 .. 150 |-> [ext |-> Sq(3 * i, i % 5, 2), holes |-> IF i % 3 = 0 THEN << Sq(3 * i + 1, (i % 5) + 1, 1) >> ELSE <<>>]]),
+    \* zigzags whose extremes sit just BEFORE the end (x max and y min at the third-to-last, y max at the second-to-last vertex),
+    \* lengths around powers of two with remainders 2 and 3 modulo 4 (unrolled scans, chunked folds)
+    LS(ZigSpike(66)), LS(ZigSpike(71)), LS(ZigSpike(1027)), LS(ZigSpike(4102))
 >>
+NLong == 7
 NP == Len(Pool)
 
 VARIABLES m1, m2, m3, fn, done
 vars == <<m1, m2, m3, fn, done>>
-Init == /\ m1 \in {i \in 1 .. NP : i % Stride = Offset % Stride} /\ m2 = 0 /\ m3 = 0 /\ fn = "affine" /\ done = FALSE
+Init == /\ m1 \in {i \in 1 .. NP : i % Stride = Offset % Stride \/ i > NP - NLong} /\ m2 = 0 /\ m3 = 0 /\ fn = "affine" /\ done = FALSE
 Members(a, b, c) == (IF a = 0 THEN <<>> ELSE <<Pool[a]>>) \o (IF b = 0 THEN <<>> ELSE <<Pool[b]>>)
                     \o (IF c = 0 THEN <<>> ELSE <<Pool[c]>>)
 Tree(a, b, c) == IF b = 0 /\ c = 0 THEN Pool[a] ELSE GC(Members(a, b, c))
@@ -121,8 +127,8 @@ Case(g, f) ==
      dim |-> Dim(g), bdim |-> BDim(g), empty |-> IsEmptyG(g)]
 Next == /\ ~done /\ done' = TRUE /\ m1' = m1
         /\ m2' \in 0 .. NP /\ m3' \in 0 .. NP /\ (m2' = 0 => m3' = 0)
-        \* the three long members appear alone, or first in a collection with the first one / two pool entries
-        /\ m2' <= NP - 3 /\ m3' <= NP - 3 /\ (m1 > NP - 3 => (m2' <= 1 /\ m3' \in {0, 2} /\ (m3' = 2 => m2' = 1)))
+        \* the NLong long members appear alone, or first in a collection with the first one / two pool entries
+        /\ m2' <= NP - NLong /\ m3' <= NP - NLong /\ (m1 > NP - NLong => (m2' <= 1 /\ m3' \in {0, 2} /\ (m3' = 2 => m2' = 1)))
         /\ fn' \in Fn
         /\ PrintT(<<"CASE", ToJson(Case(Tree(m1, m2', m3'), fn'))>>)
 Spec == Init /\ [][Next]_vars
